@@ -92,6 +92,9 @@ func raceSession(rng *rand.Rand, stats map[string]int64) (vs []Violation, conclu
 		}
 	}()
 	send := func(line string) {
+		if rng.IntN(15) == 0 {
+			line = pick(rng, []string{line + "\t", strings.Replace(line, " ", "\t", 1), " " + line + " "})
+		}
 		log.add("IN", line)
 		io.WriteString(inW, line+"\n")
 	}
@@ -123,7 +126,13 @@ func raceSession(rng *rand.Rand, stats map[string]int64) (vs []Violation, conclu
 	for t := 0; t < turns && !quitMid; t++ {
 		if rng.IntN(4) == 0 {
 			game = genRoot(rng, "").Game()
+			if rng.IntN(3) == 0 {
+				send(fmt.Sprintf("setoption name Hash value %d", pick(rng, []int{16, 64, 128})))
+			}
 			send("ucinewgame")
+			if rng.IntN(2) == 0 {
+				send(fmt.Sprintf("setoption name Hash value %d", pick(rng, []int{1, 2, 16})))
+			}
 		}
 		pos := "position fen " + game.Start.FEN()
 		if len(game.Moves) > 0 {
